@@ -30,6 +30,11 @@ def merge := mergeWith (cmpOf C27.mergeCmp)
 
 theorem merge_eq_max (xs ys) : merge xs ys = mergeMax xs ys := mergeWith_eq_max cmp_is_max xs ys
 
+/-- The index-based transcription of the Go loop (append past the end / overwrite when better) is the model. -/
+theorem C27_loop_is_model (existing coverage : List Nat) :
+    mergeLoop (cmpOf C27.mergeCmp) existing coverage = merge existing coverage :=
+  mergeLoop_eq_mergeWith _ existing coverage
+
 /-- Order of two runs does not matter. -/
 theorem C27_comm (xs ys : List Nat) : merge xs ys = merge ys xs := by
   simp only [merge_eq_max, mergeMax_comm]
